@@ -16,7 +16,18 @@ caveat VALUES.  JSON text and `encoding/json` are not modelled (trusted, exercis
   error anywhere inside is an error of the whole;
 * an `UnregisteredCaveat` that was decoded from MessagePack has no `RawJSON`: its `MarshalJSON`
   fails ("cannot convert unregistered caveats from msgpack to JSON") and with it the marshalling of
-  the whole set, at any nesting depth.  This is the only failure of the round trip;
+  the whole set, at any nesting depth.  This is the only failure on the way out;
+* `GoogleUserID` is rendered as its decimal text; `GoogleUserID.UnmarshalJSON` refuses text longer
+  than 128 characters ("bad bigint: too long", `maxGoogleUserIDDigits`; decimal parsing is
+  quadratic) BEFORE parsing it.  The model's value is the magnitude `n : Nat` (what the wire
+  carries: `big.Int.Bytes`), so the text has more than 128 characters exactly when `n ≥ 10^128`:
+  the second failure of the round trip (`JsonErr.tooLong`), on the way IN.  MessagePack-born ids
+  can be that large.  Marshalling of the WHOLE set (every nesting depth) comes first, so when a set
+  holds both an unregistered caveat and such an id — in whatever order — the error is the
+  unregistered one (`JsonErr.merge`).  (A negative `big.Int` exists only as a hand-built Go value
+  or JSON-born text; its `-` counts as a character on the Go side, so for `10^127 ≤ |n| < 10^128`
+  the code refuses what the magnitude-only model accepts: outside the value space, judged by the
+  family without the model.)
 * a nil `flyio.Commands` (and a nil `BindToParentToken`) renders as `"body":null`; on the
   unrepaired tree that reads back as a nil `Caveat` (finding F4).  The model has the repaired
   behaviour: identity.
@@ -33,15 +44,25 @@ import Macaroon.Caveat.Prohibits
 
 namespace Macaroon
 
-/-- the one way `json.Marshal` of a caveat set fails -/
+/-- the two ways the round trip fails: `json.Marshal` of the set, or `json.Unmarshal` of its text -/
 inductive JsonErr
-  | unregistered     -- "cannot convert unregistered caveats from msgpack to JSON"
+  | unregistered     -- on the way out: "cannot convert unregistered caveats from msgpack to JSON"
+  | tooLong          -- on the way in: "bad bigint: too long" (a `GoogleUserID` of more than 128 characters)
   deriving DecidableEq, Repr, Inhabited
+
+/-- two failing members of one set: marshalling of the whole set precedes all reading, so the
+marshalling error is the one reported whenever there is one -/
+def JsonErr.merge : JsonErr → JsonErr → JsonErr
+  | .tooLong, .tooLong => .tooLong
+  | _, _ => .unregistered
 
 namespace Json
 
 /-- `ActionFromString (a.String())`: only the five defined bits survive -/
 @[inline] def maskRT (a : Action) : Action := a &&& Action.all
+
+/-- `maxGoogleUserIDDigits = 128`: the least magnitude whose decimal text `UnmarshalJSON` refuses -/
+def googleIDLimit : Nat := 10 ^ 128
 
 /-- a `ResourceSet[K, Action]` after the round trip: same keys, every mask through `maskRT` -/
 def ressetRT {K} (rs : ResSet K) : ResSet K := rs.map fun e => (e.1, maskRT e.2)
@@ -80,7 +101,7 @@ def jsonRT : Cav B → Except JsonErr (Cav B)
   | .isMember => .ok .isMember
   | .flyioUserID id => .ok (.flyioUserID id)
   | .gitHubUserID id => .ok (.gitHubUserID id)
-  | .googleUserID n => .ok (.googleUserID n)
+  | .googleUserID n => if n < googleIDLimit then .ok (.googleUserID n) else .error .tooLong
   | .action mask => .ok (.action (maskRT mask))
   | .commands cs => .ok (.commands cs)
   | .appFeatureSet rs => .ok (.appFeatureSet (ressetRT rs))
@@ -92,29 +113,40 @@ def jsonRT : Cav B → Except JsonErr (Cav B)
 def jsonRTL : CavList B → Except JsonErr (CavList B)
   | .nil => .ok .nil
   | .cons c cs =>
-    match jsonRT c with
-    | .error e => .error e
-    | .ok c' =>
-      match jsonRTL cs with
-      | .error e => .error e
-      | .ok cs' => .ok (.cons c' cs')
+    match jsonRT c, jsonRTL cs with
+    | .ok c', .ok cs' => .ok (.cons c' cs')
+    | .error e, .ok _ => .error e
+    | .ok _, .error e => .error e
+    | .error e, .error e' => .error (e.merge e')
 end
 
 /-- `json.Unmarshal(json.Marshal(cs))` on a caveat set -/
 def jsonRTs : List (Cav B) → Except JsonErr (List (Cav B))
   | [] => .ok []
   | c :: cs =>
-    match jsonRT c with
-    | .error e => .error e
-    | .ok c' =>
-      match jsonRTs cs with
-      | .error e => .error e
-      | .ok cs' => .ok (c' :: cs')
+    match jsonRT c, jsonRTs cs with
+    | .ok c', .ok cs' => .ok (c' :: cs')
+    | .error e, .ok _ => .error e
+    | .ok _, .error e => .error e
+    | .error e, .error e' => .error (e.merge e')
 
 mutual
 /-- no unregistered caveat at any depth: the set can be rendered to JSON -/
+def Cav.marshalOK : Cav B → Bool
+  | .unregistered _ _ => false
+  | .ifPresent _ ifs _ => CavList.marshalOK ifs
+  | _ => true
+def CavList.marshalOK : CavList B → Bool
+  | .nil => true
+  | .cons c cs => Cav.marshalOK c && CavList.marshalOK cs
+end
+
+mutual
+/-- no unregistered caveat and no Google id of more than 128 digits at any depth: the set can be
+rendered to JSON and its text can be read back -/
 def Cav.jsonOK : Cav B → Bool
   | .unregistered _ _ => false
+  | .googleUserID n => decide (n < Json.googleIDLimit)
   | .ifPresent _ ifs _ => CavList.jsonOK ifs
   | _ => true
 def CavList.jsonOK : CavList B → Bool
